@@ -8,10 +8,6 @@ type StaticResult struct {
 	Detail string
 }
 
-func (r *checkRun) verifyRuntime(rp RuntimePlan) ([]*FuncResult, error) {
-	return nil, fmt.Errorf("runtime rendering not implemented")
-}
-
 func (r *checkRun) staticCheck(name string) ([]*StaticResult, error) {
 	return nil, fmt.Errorf("static check %s not implemented", name)
 }
